@@ -6,7 +6,7 @@
    a statement is a function  state -> control * state  with control Normal | Continue | Return v | Raise e.
    Everything here is TRUSTED in the sense that it defines what the generated text means; the lemmas are
    proved (no axioms). *)
-From Coq Require Import List NArith ZArith QArith Bool Lia Lqa.
+From Coq Require Import List NArith ZArith QArith Qabs Bool Lia Lqa.
 Import ListNotations.
 
 Notation node := N.
@@ -15,7 +15,7 @@ Notation edge := (N * N)%type.
 (* ------------------------------------------------------------------------- control *)
 (* BreakSignal and OutOfFuel are not Python exceptions: `break` is modelled as a signal caught by the innermost loop
    (py_loop_b / py_while), OutOfFuel says that a `while` did not finish within the fuel the caller of the model gave *)
-Inductive exn := ValueError | KeyError | TypeError | RuntimeError | IndexError | PyException | BreakSignal | OutOfFuel | UnboundLocalError.
+Inductive exn := ValueError | KeyError | TypeError | RuntimeError | IndexError | PyException | BreakSignal | OutOfFuel | UnboundLocalError | ZeroDivisionError.
 Inductive ctl (R : Type) := CNormal | CContinue | CReturn (r : R) | CRaise (e : exn).
 Arguments CNormal {R}. Arguments CContinue {R}. Arguments CReturn {R} r. Arguments CRaise {R} e.
 (* what a call yields: a value, an exception, or falling off the end (Python: None) *)
@@ -271,7 +271,7 @@ Definition py_in_degree (G : pygraph) (v : node) : Z := py_len (py_in_edges G v)
 
 (* ------------------------------------------------------------------------- result printing (correspondence runs) *)
 Definition exn_code (e : exn) : Z :=
-  match e with ValueError => 0 | KeyError => 1 | TypeError => 2 | RuntimeError => 3 | IndexError => 4 | PyException => 5 | BreakSignal => 6 | OutOfFuel => 7 | UnboundLocalError => 8 end%Z.
+  match e with ValueError => 0 | KeyError => 1 | TypeError => 2 | RuntimeError => 3 | IndexError => 4 | PyException => 5 | BreakSignal => 6 | OutOfFuel => 7 | UnboundLocalError => 8 | ZeroDivisionError => 9 end%Z.
 Definition enc_Q (q : Q) : list Z := let r := Qred q in [Qnum r; Zpos (Qden r)].
 Definition enc_result {R} (enc : R -> list Z) (r : result R) : list Z :=
   match r with Ret v => 0%Z :: enc v | Exc e => [1%Z; exn_code e] | RetNone => [2%Z] end.
@@ -386,6 +386,8 @@ Fixpoint py_list_eqb {A} (eqb : A -> A -> bool) (l1 l2 : list A) : bool :=
   | x :: r1, y :: r2 => eqb x y && py_list_eqb eqb r1 r2
   | _, _ => false
   end.
+(* abs(x) of a number *)
+Definition py_abs (q : Q) : Q := Qabs q.
 (* round(x) for a float x: to the nearest integer, ties to the even one *)
 Definition py_round (q : Q) : Z :=
   let n := Qnum q in let d := Zpos (Qden q) in
